@@ -446,16 +446,8 @@ Section ScenCase.
         end
     end.
 
-  Fixpoint spec_steps (timeout : Z) (configured : heap) (sts : list (step * vars_c)) : outs :=
-    match sts with
-    | [] => []
-    | (st, v) :: r =>
-        let o := spec_step desc_c msg_c tmpl_c vars_c parse_t_c exec_t_c fits_text_c example_table timeout configured st v in
-        match o with
-        | Sent _ => o :: spec_steps timeout configured r
-        | _ => [o]
-        end
-    end.
+  Definition spec_steps (timeout : Z) (configured : heap) (sts : list (step * vars_c)) : outs :=
+    spec_scenario desc_c msg_c tmpl_c vars_c parse_t_c exec_t_c fits_text_c example_table timeout configured sts.
 
   (* specification: every shot rendered from the configured definitions *)
   Fixpoint scen_spec (users : list (gbytes * gbytes)) (defs : list cdef) (scens : list (gbytes * list nat))
